@@ -30,7 +30,8 @@ func (c *updater) buildHostAuthExternal(d *hostData) {
 	if isFrontend && url.Value != "" {
 		for _, path := range d.host.Paths {
 			path.AuthExt = &types.AuthExternal{}
-			c.setAuthExternal(d.mapper, path.AuthExt, url)
+			c.setAuthExternal(d.mapper, path.AuthExt, url,
+				convtypes.TrackingRef{Context: convtypes.ResourceHAHostname, UniqueName: d.host.Hostname})
 		}
 	}
 }
